@@ -311,6 +311,13 @@ def run_c17(ctx):
         c = retgen.Counter()
         v = retgen.gen_value(t, rng, c, force="owned")
         cases.append((t, v, ["each", "n2", "al1"][(j + ctx.seed) % 3], False))
+    # every reference-carrying type with a vector in it: the value whose vectors are all empty
+    with_vec = [t for t in with_ref if '"vec"' in json.dumps(t)]
+    for j, t in enumerate(with_vec):
+        c = retgen.Counter()
+        v = retgen.gen_value(t, rng, c, force="empty")
+        cases.append((t, v, retgen.MODES[(j + ctx.seed) % len(retgen.MODES)], False))
+    n += len(with_vec)
     k = 0
     while len(cases) < n + 2 * len(ownable):
         # reference-carrying types dominate; every accepted one is visited in turn
